@@ -778,7 +778,10 @@ class Interp:
         yield from self._comp(node, st, 'set')
 
     def _comp(self, node, st, kind):
-        if len(node.generators) != 1 or node.generators[0].is_async:
+        if len(node.generators) == 2 and kind == 'set':
+            yield from self._union_comp(node, st)
+            return
+        if len(node.generators) != 1:
             raise Unsupported('comprehension shape')
         gen = node.generators[0]
         for s, itv in self.ev(gen.iter, st):
@@ -817,6 +820,40 @@ class Interp:
                         yield from go(i + 1, s1, acc)
 
             yield from go(0, s, [])
+
+    def _union_comp(self, node, st):
+        """{y for t in IT for y in E(t)}  ->  the union of elems(E(elem(k))) over k < n"""
+        from . import ops, models
+        g1, g2 = node.generators
+        if g1.ifs or g2.ifs or not (isinstance(node.elt, ast.Name) and isinstance(g2.target, ast.Name)
+                                    and node.elt.id == g2.target.id):
+            raise Unsupported('set comprehension shape')
+        for s, itv in self.ev(g1.iter, st):
+            if isinstance(itv, Raised):
+                yield s, itv
+                continue
+            it = ops.iterspec(self, s, itv)
+            if it.n is None:
+                raise Unsupported('unbounded comprehension source')
+            for a in it.assumptions:
+                s.assume(a)
+            k = z3.Int(sym.fresh_name('ck'))
+            saved = s.cur
+            s.push_frame(saved)
+            self.assign_target(s, g1.target, it.elem(k))
+            res = list(self.ev(g2.iter, s))
+            if len(res) != 1 or isinstance(res[0][1], Raised) or res[0][0] is not s:
+                raise Unsupported('inner comprehension iterable forks')
+            arr, et = models.elems_of(self, s, res[0][1])
+            s.cur = saved
+            R = z3.Const(sym.fresh_name('union'), z3.ArraySort(et.sort(), z3.BoolSort()))
+            y = z3.Const(sym.fresh_name('y'), et.sort())
+            s.assume(z3.ForAll([k, y], z3.Implies(z3.And(0 <= k, k < it.n, z3.Select(arr, y)), z3.Select(R, y))))
+            s.assume(z3.ForAll([y], z3.Implies(z3.Select(R, y), z3.Exists([k], z3.And(0 <= k, k < it.n, z3.Select(arr, y))))))
+            r = ops.new_heap(s, sym.SetC(et))
+            s.heap.write(sym.SetC(et), 'm', r.z, R)
+            s.emit('union_comp', result=r, n=it.n)
+            yield s, r
 
     def concrete_items(self, st, v):
         if isinstance(v, tuple):
